@@ -8,6 +8,7 @@ import (
 	"runtime/pprof"
 	"strings"
 	"sync/atomic"
+	"syscall"
 	"testing"
 	"time"
 
@@ -32,6 +33,7 @@ type c13Case struct {
 	Cap    int    `json:"cap"`    // downstream buffer capacity (full_buffer)
 	Pre    int    `json:"pre"`    // lines of pre-traffic delivered before the blocking state
 	DelayU int    `json:"delay_us"`
+	Gone   string `json:"gone,omitempty"` // wait_open: "" | removed | replaced — what happens to the pipe's path while the worker waits for a writer
 }
 
 var c13States = []struct{ w, s string }{
@@ -43,8 +45,12 @@ var c13States = []struct{ w, s string }{
 
 func genC13(rt *rapid.T) c13Case {
 	ws := pick(rt, "ws", c13States)
-	return c13Case{Worker: ws.w, State: ws.s, Cap: pick(rt, "cap", []int{0, 1, 7, 100}), Pre: rapid.IntRange(0, 20).Draw(rt, "pre"),
+	c := c13Case{Worker: ws.w, State: ws.s, Cap: pick(rt, "cap", []int{0, 1, 7, 100}), Pre: rapid.IntRange(0, 20).Draw(rt, "pre"),
 		DelayU: pick(rt, "delayclass", []int{0, 1, 10, 100, 1000}) * rapid.IntRange(0, 3).Draw(rt, "delay")}
+	if ws.s == "wait_open" {
+		c.Gone = pick(rt, "gone", []string{"", "", "removed", "replaced"})
+	}
+	return c
 }
 
 const c13Bound = 5 * time.Second
@@ -144,14 +150,26 @@ func execC13(c c13Case) Outcome {
 	}
 
 	var w *os.File
+	relPath := path
+	if c.State == "wait_open" && c.Gone != "" {
+		// a second name for the same FIFO, so that the harness can still release an
+		// open(2) that is blocked on it after the path has gone
+		relPath = path + ".link"
+		if err := os.Link(path, relPath); err != nil {
+			panic(&infraError{err.Error()})
+		}
+	}
 	releaseOpen := func() {
 		// release a reader blocked in open(2): a blocking write-open returns at
 		// once when a reader is waiting; otherwise ENXIO with O_NONBLOCK.
-		if f, err := os.OpenFile(path, os.O_WRONLY|0o4000 /* O_NONBLOCK */, 0); err == nil {
+		if f, err := os.OpenFile(relPath, os.O_WRONLY|0o4000 /* O_NONBLOCK */, 0); err == nil {
 			f.Close()
 		}
 	}
 	labels := []string{"worker:" + c.Worker, "state:" + c.State}
+	if c.Gone != "" {
+		labels = append(labels, "pipe_path:"+c.Gone)
+	}
 	nt := false
 	if c.State != "wait_open" {
 		w, err = os.OpenFile(path, os.O_WRONLY, 0)
@@ -212,6 +230,22 @@ func execC13(c c13Case) Outcome {
 		default:
 		}
 	}
+	if c.State == "wait_open" && c.Gone != "" {
+		// log rotation / a restarted producer: the path the worker waits on disappears
+		// (and may come back as a different FIFO) while nobody has connected yet
+		nt = true
+		if c.DelayU >= 0 {
+			time.Sleep(2 * time.Millisecond) // let the worker reach open(2)
+		}
+		if err := os.Remove(path); err != nil {
+			panic(&infraError{err.Error()})
+		}
+		if c.Gone == "replaced" {
+			if err := syscall.Mkfifo(path, 0o600); err != nil {
+				panic(&infraError{err.Error()})
+			}
+		}
+	}
 	t0 := time.Now()
 	cancel()
 	var ret error
@@ -236,7 +270,7 @@ func execC13(c c13Case) Outcome {
 	}
 	_ = ret
 	// the producer keeps writing after the worker has returned: none of it may be delivered
-	if c.State == "idle_read" || c.State == "wait_open" {
+	if c.State == "idle_read" || (c.State == "wait_open" && c.Gone == "") {
 		wr := w
 		if wr == nil {
 			if f, e := os.OpenFile(path, os.O_WRONLY|0o4000 /* O_NONBLOCK */, 0); e == nil {
@@ -429,6 +463,16 @@ func TestC13_Enum(t *testing.T) {
 					if !y(c13Case{Worker: w, State: "wait_open", DelayU: d, Pre: rep}) {
 						return
 					}
+				}
+			}
+			// the pipe's path disappears / is replaced while the worker waits for a writer
+			for _, g := range []string{"removed", "replaced"} {
+				n++
+				if n%sn != si {
+					continue
+				}
+				if !y(c13Case{Worker: w, State: "wait_open", DelayU: 500, Gone: g}) {
+					return
 				}
 			}
 		}
